@@ -96,9 +96,11 @@ def canonical(term: Optional[V], polarity: Optional[bool]) -> Optional[Tuple[str
         a, b = term.args
         if isinstance(a, Term) and a.op == "call" and a.args and a.args[0] in ("re.search",) and isinstance(b, Const) and b.value is None:
             return ("SEARCH_NONE", a.args[1].key(), a.args[2].key())
-    # `len({x for x in V if x not in B}) > 0`
-    if term.op == "lt" and polarity is True:
+    # `len({x for x in V if x not in B}) > 0`  /  `len(...) != 0`
+    if (term.op == "lt" and polarity is True) or (term.op == "eq" and polarity is False):
         a, b = term.args
+        if term.op == "eq" and isinstance(b, Const):
+            a, b = b, a
         if isinstance(a, Const) and a.value == 0 and isinstance(b, Term) and b.op == "len":
             c = b.args[0]
             if isinstance(c, Term) and c.op in ("setcomp", "listcomp") and len(c.args) == 3:
